@@ -898,6 +898,7 @@ class BisectionZD(Bisection1D):
             max_iter = self.selection_key_outer + 7
 
         i = self.selection_key_outer
+        selection_keys = {}
 
         old_height = 99999
 
@@ -910,6 +911,7 @@ class BisectionZD(Bisection1D):
             except ValueError:
                 break
             self.calculated_temperatures_nested[i] = self.calculated_temperatures
+            selection_keys[i] = selection_key
 
             self.ghe.compute_g_functions()
             self.ghe.size(method=TimestepType.HYBRID)
@@ -933,14 +935,9 @@ class BisectionZD(Bisection1D):
         selection_key_outer = keys[idx]
         self.calculated_temperatures = self.calculated_temperatures_nested[selection_key_outer]
 
-        keys = list(self.calculated_temperatures.keys())
-        values = list(self.calculated_temperatures.values())
-
-        negative_excess_values = [v for v in values if v <= 0.0]
-
-        excess_of_interest = max(negative_excess_values)
-        idx = values.index(excess_of_interest)
-        selection_key = keys[idx]
+        # keep the field that list's own search selected (the smallest one meeting the limits, or the
+        # fallback of continue_if_design_unmet)
+        selection_key = selection_keys[selection_key_outer]
         selected_coordinates = self.coordinates_domain_nested[selection_key_outer][selection_key]
 
         self.initialize_ghe(
